@@ -217,6 +217,43 @@ def gen_listener_history(rng, maxops=10):
     return gen_history(rng, maxops=maxops, weights=dict(ing=1, vs=2, ts=8, gc=6, delete=3, delgc=1), rep=8)
 
 
+def gen_replaced_contest(rng, kinds=("ing", "vs", "ts", "pt")):
+    """Two or three resources of one kind contend for the same host / listener; then one of them is REPLACED — deleted and re-created
+    under the same name, seen as a single update: new UID, a creation time that may reverse the age order, generation 1 again, and
+    one time in three a different claim or an invalid spec — and an unrelated event follows. Ownership, the emitted changes and the
+    reports must be those of the objects that exist now."""
+    kind = rng.choice(list(kinds))
+    names = rng.shuffle(["a", "b", "c"])[: 2 + rng.below(2)]
+    uid = [0]
+
+    def obj(name, ts, what, valid="1"):
+        uid[0] += 1
+        u = "u%03d" % uid[0]
+        if kind == "ing":
+            return "ing|d|%s|%s|%d|1|_|1|%s|r|0|%s>/x" % (name, u, ts, valid, what)
+        if kind == "vs":
+            return "vs|d|%s|%s|%d|1|1|%s|%s|/>_|-|-" % (name, u, ts, valid, what)
+        if kind == "pt":
+            return "ts|d|%s|%s|%d|1|1|%s|tls-passthrough|TLS_PASSTHROUGH|%s" % (name, u, ts, valid, what)
+        return "ts|d|%s|%s|%d|1|1|%s|%s|TCP|_" % (name, u, ts, valid, what)
+    things = ["tcp1", "tcp2"] if kind == "ts" else ["a.ex", "b.ex"]
+    ops = ["gc|tcp1>5000>TCP>0>_>_&tcp2>5001>TCP>0>_>_"] if kind == "ts" else []
+    tss = rng.shuffle([1, 2, 3, 4])
+    for i, n in enumerate(names):
+        ops.append(obj(n, tss[i], things[0]))
+    victim = rng.choice(names)
+    what = things[0] if rng.chance(2, 3) else things[1]
+    ops.append(obj(victim, rng.choice([0, 5, tss[0]]), what, "0" if rng.chance(1, 6) else "1"))
+    tail = rng.below(4)
+    if tail == 0:
+        ops.append("ing|e|z|u900|1|1|_|1|1|r|0|z.ex>/x")
+    elif tail == 1:
+        ops.append("del|%s|d/%s" % ({"ing": "ing", "vs": "vs"}.get(kind, "ts"), rng.choice(names)))
+    elif tail == 2 and kind == "ts":
+        ops.append("gc|tcp1>5000>TCP>0>_>_&tcp2>5002>TCP>0>_>_")
+    return line(True, False, ops, rep=4)
+
+
 def gen_admission(rng):
     """A single GlobalConfiguration with up to 7 entries biased to clashes, duplicate and bad names, reserved ports."""
     names = ["a", "b", "c"]
@@ -255,7 +292,7 @@ def parse_line(l):
 
 def with_ops(l, ops):
     kv, _ = parse_line(l)
-    return "arb pt=%s cm=%s forb=%s rep=%s ops=%s" % (kv["pt"], kv["cm"], kv["forb"], kv.get("rep", "1"), ";".join(ops))
+    return "arb pt=%s cm=%s forb=%s rep=%s%s ops=%s" % (kv["pt"], kv["cm"], kv["forb"], kv.get("rep", "1"), " fail=1" if kv.get("fail") == "1" else "", ";".join(ops))
 
 
 # ---------------------------------------------------------------- observation parsing
